@@ -39,6 +39,8 @@ type Auth struct {
 	Response  string
 	Opaque    string // 暂时没用
 	Stale     string // 暂时没用
+
+	issuedNonce string // server side: MakeAuthenticate 最近一次下发的nonce
 }
 
 // ParseAuthorization 解析字段，server side使用
@@ -147,7 +149,8 @@ func (a *Auth) MakeAuthenticate(method string) string {
 	case AuthTypeBasic:
 		return fmt.Sprintf("%s realm=\"%s\"", method, base.LalRtspRealm)
 	case AuthTypeDigest:
-		return fmt.Sprintf("%s realm=\"%s\", nonce=\"%s\"", method, base.LalRtspRealm, a.nonce())
+		a.issuedNonce = a.nonce()
+		return fmt.Sprintf("%s realm=\"%s\", nonce=\"%s\"", method, base.LalRtspRealm, a.issuedNonce)
 	}
 	return ""
 }
@@ -162,6 +165,11 @@ func (a *Auth) CheckAuthorization(method, username, password string) bool {
 	case AuthTypeDigest:
 		// The "response" field is computed as:
 		// md5(md5(<username>:<realm>:<password>):<nonce>:md5(<cmd>:<url>))
+
+		// nonce必须是本端最近一次下发的nonce，否则抓包得到的Authorization可以被重放
+		if a.issuedNonce == "" || a.Nonce != a.issuedNonce {
+			return false
+		}
 
 		ha1 := nazamd5.Md5([]byte(fmt.Sprintf("%s:%s:%s", username, a.Realm, password)))
 		ha2 := nazamd5.Md5([]byte(fmt.Sprintf("%s:%s", method, a.Uri)))
